@@ -148,6 +148,9 @@ func (e *env) genQuery(rng *rand.Rand) query {
 	if rng.Intn(10) == 0 {
 		n = 10 + rng.Intn(30)
 	}
+	if rng.Intn(25) == 0 {
+		n = 101 + rng.Intn(400) // up to the wire limit of 500 locator hashes
+	}
 	for i := 0; i < n; i++ {
 		switch rng.Intn(6) {
 		case 0, 1:
